@@ -339,9 +339,17 @@ def names_ok_pool(rng, enc):
     return out
 
 
-def scripted(i, bpc, count=0):
+def scripted(i, bpc, count=0, rootent=0):
     """minimised past disagreements and targeted histories, run before the random programs"""
-    k = i % 4
+    k = i % 5
+    if k == 4:     # the fixed root region of FAT12/16 filled with LONG names (4 slots each) beyond its capacity: every request is either carried out
+        # or refused, and the file in the first data cluster — right behind the root region — keeps its bytes (C01-m5)
+        if not 0 < rootent <= 512:
+            return [["listdir", "/"]]
+        ops = [["writebytes", "/FIRST.BIN", "f1" * (2 * bpc)]]
+        for q in range(rootent // 4 + 3):
+            ops.append(["create", f"/a long name that needs three slots {q:03d}.txt"])
+        return ops + [["readbytes", "/FIRST.BIN"], ["listdir", "/"], ["remove", "/a long name that needs three slots 000.txt"], ["readbytes", "/FIRST.BIN"]]
     if k == 3:     # churn: a file is written, emptied (it may keep one cluster) and removed, more often than the volume has clusters; then
         # most of the volume is asked for in one piece: nothing may have leaked (C01-m4)
         if not 20 <= count <= 400:
@@ -366,7 +374,7 @@ def scripted(i, bpc, count=0):
 def run(ctx):
     vols = gen.volumes(ctx.tier)
     built = {}
-    for i in range(len(vols) * 4):
+    for i in range(len(vols) * 5):
         label, thunk = vols[i % len(vols)]
         if label in ("build32-high",) and ctx.tier == "quick":
             continue
@@ -378,7 +386,7 @@ def run(ctx):
             continue
         ctx.evaluations += 1
         ctx.dist["scripted"] += 1
-        run_one(ctx, label, img, meta, scripted(i // len(vols), v.bpc, v.count), dict(encoding="ibm437", lazy_load=bool(i % 2)))
+        run_one(ctx, label, img, meta, scripted(i // len(vols), v.bpc, v.count, v.rootent if v.ft != 32 else 0), dict(encoding="ibm437", lazy_load=bool(i % 2)))
     for i in range(ctx.scale(40, 800)):
         if ctx.time_left() < 20:
             break
